@@ -33,7 +33,6 @@ pub trait Contract<C, Q> {
         ensures r == self.checksum_sem();
 }
 
-pub struct CanonicalAddr { pub b: Binary }
 pub trait AddressGenerator {
     spec fn addr_sem(&self, code_id: u64, instance_id: u64) -> AnyResult<Addr>;
     spec fn predictable_sem(&self, code_id: u64, instance_id: u64, checksum: Seq<u8>, creator: CanonicalAddr, salt: Seq<u8>) -> AnyResult<Addr>;
@@ -48,19 +47,5 @@ pub trait ChecksumGenerator {
         ensures r == self.checksum_sem(*creator, code_id);
 }
 
-// vectors as values: vec_of is the inverse of the view (every vector is determined by its elements)   TRUSTED
-pub uninterp spec fn vec_of<T>(s: Seq<T>) -> Vec<T>;
-pub broadcast axiom fn axiom_vec_canon<T>(v: Vec<T>)
-    ensures #[trigger] vec_of(v@) == v;
-pub broadcast axiom fn axiom_vec_of_view<T>(s: Seq<T>)
-    ensures s.len() <= usize::MAX ==> (#[trigger] vec_of(s))@ == s;
-
 impl Default for Binary { #[verifier::external_body] fn default() -> (r: Self) ensures r.b@.len() == 0 { Binary { b: Vec::new() } } }
 pub open spec fn empty_binary() -> Binary { Binary { b: vec_of(Seq::<u8>::empty()) } }
-pub proof fn lemma_vec_eq<T>(a: Vec<T>, b: Vec<T>)
-    requires a@ == b@
-    ensures a == b
-{
-    axiom_vec_canon(a);
-    axiom_vec_canon(b);
-}
